@@ -352,7 +352,8 @@ func (it *Iterator) decodeNext() ([]byte, []byte, bool) {
 		}
 
 		// Reconstruct key: shared prefix + unshared suffix
-		key = make([]byte, sharedLen+unsharedLen)
+		// int arithmetic: the sum of two uint16 lengths can exceed 65535
+		key = make([]byte, int(sharedLen)+int(unsharedLen))
 		copy(key[:sharedLen], it.currentKey[:sharedLen])
 		copy(key[sharedLen:], data[:unsharedLen])
 
